@@ -3489,7 +3489,7 @@ pub fn generate(family: &str, seed: u64, tier: &str, extra: &[String], w: &mut d
                     o.line("dump");
                     o.line("enc");
                     o.line("acc");
-                    for c in [1u32, 2, 3, 9, 14, 16, 101, 109, 116, 200, 4294967295, 0, 77, 257, 65537, 16777225, 255, 256, 65535, 65536, 65545, 16777217] {
+                    for c in [1u32, 2, 3, 9, 14, 16, 101, 109, 116, 200, 4294967295, 0, 77, 257, 65537, 16777225, 255, 256, 65535, 65536, 65545, 16777217, 300, 301, 302] {
                         o.line(&format!("get {}", c));
                     }
                 }),
@@ -3529,7 +3529,7 @@ pub fn generate(family: &str, seed: u64, tier: &str, extra: &[String], w: &mut d
                 };
                 let mut m = header(&mut r);
                 // (now and then a long message: dozens of AVPs of two or three kinds, e.g. a trail of Route-Records)
-                let count = if i % 10 == 5 { 24 + r.below(70) } else { 2 + r.below(5) };
+                let count = if i % 10 == 5 || i % 10 == 0 { 24 + r.below(70) } else { 2 + r.below(5) };
                 for _ in 0..count {
                     let def = *r.pick(&few);
                     let a = if def.ty == T_GROUPED {
